@@ -331,3 +331,13 @@ Example C05_path_example :
   GoPath.join [PathTie.render_dir [[97]; [46; 46; 46]]; [32; 98]] = [97; 47; 46; 46; 46; 47; 32; 98] /\
   GoPath.dir [97; 47; 46; 46; 46] = [97] /\ GoPath.dir [97] = [46].
 Proof. vm_compute. repeat split; reflexivity. Qed.
+
+(* non-vacuity of C05_fifos_left_out: a directory holding a fifo and a file; pruning removes the
+   fifo, the archive stays the same *)
+Definition C05_fifo_tree : tree :=
+  TDir (mkAttrs 16877 0 0 1000 [])
+    [ ([97], TOther (mkAttrs 4516 0 0 1 [])); ([98], TFile (mkAttrs 33188 0 0 5 []) [1; 2; 3]) ].
+Example C05_fifo_example :
+  prune C05_fifo_tree = TDir (mkAttrs 16877 0 0 1000 []) [([98], TFile (mkAttrs 33188 0 0 5 []) [1; 2; 3])] /\
+  tar_of_tree (prune C05_fifo_tree) = tar_of_tree C05_fifo_tree /\ tar_of_tree C05_fifo_tree <> None.
+Proof. vm_compute. repeat split; try reflexivity. discriminate. Qed.
